@@ -161,7 +161,7 @@ def gen_case(ck: Check, cap: int):
         if mode < 0.35:
             opts["max_diameter"] = rng.randint(1, ecc + 2)
         elif mode < 0.6:
-            opts["max_layer_size_to_explore"] = rng.choice([1, 2, rng.choice(sizes), rng.choice(sizes) + 1, max(sizes) + 1])
+            opts["max_layer_size_to_explore"] = rng.choice([1, 2, rng.choice(sizes), rng.choice(sizes) + 1, max(sizes) + 1, max(1, rng.choice(sizes) // 2), rng.randint(1, max(sizes))])
         elif mode < 0.9:
             k = rng.random()
             if k < 0.4:
@@ -198,6 +198,22 @@ def main():
         if ck.enough():
             break
         ck.guard(run_case, ck, gen_case(ck, cap))
+    # the size limit firing INSIDE a layer that is expanded in several batches (limit strictly between two layer sizes)
+    for _ in range(30 if not ck.thorough else 600):
+        if ck.enough():
+            break
+        base = gen_case(ck, cap)
+        gd = graphs.GDef.from_json(base["gd"])
+        sizes = [len(l) for l in gd.brute_layers(cap=10**6)]
+        ks = [k for k in range(2, len(sizes)) if sizes[k] >= 6 and max(sizes[:k]) + 1 < sizes[k]]
+        if not ks:
+            continue
+        k = ck.rng.choice(ks)
+        limit = ck.rng.randint(max(sizes[:k]) + 1, sizes[k] - 1)
+        cfg = dict(base["cfg"], batch_size=ck.rng.choice([1, 2, 3, max(1, sizes[k - 1] // 3)]))
+        opts = {"max_layer_size_to_explore": limit, "return_all_hashes": ck.rng.random() < 0.7, "max_layer_size_to_store": ck.rng.choice([None, 2, 1000])}
+        ck.guard(run_case, ck, {"gd": base["gd"], "cfg": cfg, "opts": opts, "starts": None, "stop": None})
+        ck.count("limit-inside-batched-layer")
     # all limit values 1..ecc+2 on a few graphs (exhaustive over the limit)
     for _ in range(4 if not ck.thorough else 20):
         if ck.enough():
